@@ -178,7 +178,7 @@ package actor
 //@ ghost var phase Int
 
 //@ pred procInv(p) := p != nil && p.Opts.Producer != nil && p.context != nil && p.context.engine != nil && p.context.engine.Registry != nil && p.context.engine.Registry.engine != nil &&
-//@      !isnil(p.inbox) && p.context.children != nil && p.pid != nil && p.context.pid == p.pid &&
+//@      !isnil(p.inbox) && p.context.children != nil && (p.context.parentCtx != nil ==> p.context.parentCtx.children != nil) && p.pid != nil && p.context.pid == p.pid &&
 //@      forall(k, 0 <= k && k < len(p.Opts.Middleware) ==> p.Opts.Middleware[k] != nil)
 //@ pred throughChain(fnv, c) := c == curproc.context && fnv == chainOf(boundmethod(c.receiver, "Receive"), curproc.Opts.Middleware)
 //@ pred isLifecycle(m) := istype(m, Initialized) || istype(m, Started) || istype(m, Stopped)
@@ -812,3 +812,56 @@ package actor
 //@   ghost at entry: spawned = 0
 //@   ghost at go fn: spawned = spawned + 1
 //@   ghost at return#1: assert[C02.scheduler.starts-fn-exactly-once] spawned == 1
+
+// ---------------------------------------------------------------------------
+// Supervision tree (C08): linking a child to its parent; cleanup (above)
+// unlinks from the parent first and poisons and awaits every child of the
+// Children() snapshot before the own inbox is stopped.
+
+//@ functype OptFunc(opts)
+//@   modifies heap except private
+
+//@ func DefaultOpts(p)
+//@   trusted
+//@   pure
+
+//@ func newFuncReceiver(f)
+//@   trusted
+//@   pure
+//@   ensures result != nil
+
+//@ func (*process).PID()
+//@   props C08
+//@   requires p != nil
+//@   pure
+//@   ensures result == p.pid
+
+//@ func newProcess(e, opts)
+//@   trusted
+//@   modifies
+//@   ensures result != nil && fresh(result) && result.context != nil && fresh(result.context) && result.context.parentCtx == nil && result.context.children != nil &&
+//@        result.pid != nil && result.context.pid == result.pid && result.context.engine == e && result.pid.Address == e.address && result.pid.ID == opts.Kind + pidSeparator + opts.ID
+
+//@ func (*Context).SpawnChild(p, name, opts)
+//@   props C08
+//@   requires c != nil && c.pid != nil && engInv(c.engine) && c.children != nil && forall(k, 0 <= k && k < len(opts) ==> opts[k] != nil)
+//@   ghost at call SpawnProc#1 before: assert[C08.spawnchild.child-knows-its-parent] arg0 == c.engine && arg1 == Processer(proc) && proc.context.parentCtx == c
+//@   ghost at call SpawnProc#1: spawned = result
+//@   ghost at call Set#1 before: assert[C08.spawnchild.registered-with-parent] arg0 == c.children && arg1 == spawned.ID && arg2 == spawned
+//@   ghost at return#1: assert[C08.spawnchild.returns-child-pid] result == proc.pid
+//@   loop 1
+//@     invariant rangeindex >= -1
+
+//@ func (*Context).Parent()
+//@   props C08
+//@   requires c != nil
+//@   modifies
+//@   ensures[C08.parent] (c.parentCtx != nil ==> result == c.parentCtx.pid) && (c.parentCtx == nil ==> result == nil)
+
+//@ func (*Context).Child(id)
+//@   props C08
+//@   requires c != nil && c.children != nil
+//@   modifies
+//@   ghost at call Get#1 before: assert[C08.child.looks-up-own-children] arg0 == c.children && arg1 == id
+//@   ghost at call Get#1: found = result0; ok = result1
+//@   ghost at return#1: assert[C08.child.returns-the-entry] result == found
